@@ -1,6 +1,7 @@
 import SLE.Lemmas.VMTermination
 import SLE.Lemmas.UnifyTerm
 import SLE.Gen.OpcodeTable
+import SLE.Lemmas.FuelAdequacy
 /-!
 # C03 — the analysis halts; execution respects its bounds
 
@@ -70,5 +71,26 @@ theorem C03_gas_table :
 
 /-! ### Non-vacuity -/
 example : 0 < [Instr.op 0x5b, .op 0x00].length ∧ 0 < (⟨100, 1, 1, 5, 32, false⟩ : Cfg).iterLimit := by decide
+
+
+/-! ### The stages after execution are total functions, and the fuel arguments of their models
+are artefacts: no hidden size limit -/
+
+/-- The nine lifting passes give the same result for every sufficient fuel (the model uses
+`nodeCount + 1`); in particular they terminate on every tree and never cut a large tree short. -/
+theorem C03_lifting_fuel_free (f : SV → Nat) (h : Lift.HashCtx) (v : SV) (hf : ∀ t, SV.nodeCount t < f t) :
+    FuelAdequacy.liftAllWith f h v = Lift.liftAll h v :=
+  FuelAdequacy.liftAll_fuel_free f h v hf
+
+/-- Registration of type variables likewise. -/
+theorem C03_register_fuel_free (f : SV → Nat) (hf : ∀ v, SV.nodeCount v < f v) (vs : List SV) :
+    FuelAdequacy.registerAllWith f vs = TC.registerAll vs :=
+  FuelAdequacy.registerAll_fuel_free f hf vs
+
+/-- Rendering: more fuel never changes a result that is not the out-of-fuel marker. -/
+theorem C03_render_fuel_monotone (typeOf : Nat → Except TC.RErr TE) (fuel v : Nat) (seen : List TE) (pp : Bool)
+    (h : TC.abiTypeFor typeOf fuel v seen pp ≠ .error .outOfFuel) :
+    TC.abiTypeFor typeOf (fuel + 1) v seen pp = TC.abiTypeFor typeOf fuel v seen pp :=
+  FuelAdequacy.abiTypeFor_stable typeOf fuel v seen pp h
 
 end SLE.C03
